@@ -415,7 +415,12 @@ func (e *Executor) startExecution(ctx context.Context, t *ast.Task, execute func
 	e.executionHashes[h] = thisExecution
 	e.executionHashesMutex.Unlock()
 
-	thisExecution.err = execute(ctx)
+	// The execution is shared by every caller of the task in this run, so it
+	// must not be interrupted because a sibling of the caller that happens to
+	// be first has failed: other callers (including deferred task calls, which
+	// must always run) would observe a cancellation that has nothing to do
+	// with them.
+	thisExecution.err = execute(context.WithoutCancel(ctx))
 	return thisExecution.err
 }
 
